@@ -318,6 +318,10 @@ __bizda_get_mday(dt_bizda_t that)
 	dt_dow_t wd01;
 	unsigned int res;
 
+	if (UNLIKELY(!that.bd)) {
+		/* there's no 0th business day */
+		return 0U;
+	}
 	/* find first of the month first */
 	wd01 = __get_m01_wday(that.y, that.m);
 
